@@ -636,7 +636,7 @@ pub fn run_table(seed: u64, thorough: bool, n: usize) {
     for _ in 0..n {
         let nkeys = rng.range(2, 5);
         let req = random_dag(&mut rng, nkeys, 2);
-        let strategy = rng.below(5);
+        let strategy = rng.below(6);
         let np = rng.range(1, if thorough { 7 } else { 5 });
         let mut pats: Vec<TPattern> = vec![];
         for _ in 0..np {
